@@ -9,6 +9,7 @@ package core
 
 import (
 	"fmt"
+	"os"
 	"sort"
 	"strings"
 	"testing"
@@ -75,8 +76,10 @@ func (s *c02TreeSys) freshManager() *GroupQuotaManager {
 
 func c02Node2() *corev1Node { return c01NodeObjCap("n2", c01Vec{3, 5}) }
 
-func (s *c02TreeSys) Invariants() []mc.Violation {
-	var viol []mc.Violation
+func (s *c02TreeSys) Invariants() (viol []mc.Violation) {
+	if os.Getenv("C02_DEBUG") != "" && strings.HasPrefix(s.last, "refreshRuntime") {
+		defer func() { fmt.Printf("DEBUG hist-end %s viol=%d quotas=%v nodes=%v\n", s.last, len(viol), s.liveQuotas(), s.nodes) }()
+	}
 	after := strings.SplitN(s.last, "(", 2)[0]
 	fresh := s.freshManager()
 	live := s.liveQuotas()
